@@ -581,6 +581,9 @@ def State.afterUnblock (s : State) (wasBlocked : Bool) (id : Nat) (x' : Send) (w
 def State.receivedMaxStreamData (s : State) (id offset : Nat) : Option (State × Option TErr) :=
   if sidInitiator id ≠ s.side && sidDir id == .uni then
     some (s, some (.streamState "MAX_STREAM_DATA on recv-only stream"))
+  else if Gen.maxsdChecksRemoteLimit && sidInitiator id ≠ s.side &&
+      decide (sidIndex id ≥ s.maxRemote.get (sidDir id)) then
+    some (s, some .streamLimit)
   else match s.writeLimit with
   | none => none
   | some writeLimit =>
@@ -696,6 +699,9 @@ def State.write (s : State) (id n : Nat) : Option (State × Except WriteErr Nat)
     match s.getOrInsertSend id with
     | none => some (s, .error .closedStream)
     | some (x, s1) =>
+      match x.stoppedFirst with
+      | some c => some (s1, .error (.stopped c))
+      | none =>
       if limit = 0 then
         if !x.connectionBlocked then
           some ({ (s1.putSend id { x with connectionBlocked := true }) with
